@@ -84,7 +84,7 @@ func (w *world) callback(f *fut) func() {
 		e.Logf("fire %s count=%d late=%v", f.id, f.count, now.Sub(f.due))
 		if f.count == 1 {
 			f.start = now
-			if l := now.Sub(f.due); l > w.maxLate {
+			if l := now.Sub(f.due); l > w.maxLate && f.d >= 0 {
 				w.maxLate = l
 			}
 		}
@@ -153,6 +153,19 @@ func (w *world) runTask(t sim.Task) {
 		switch op.K {
 		case "call":
 			w.doCall(fmt.Sprintf("%s.%d", t.Name, i), time.Duration(op.D), time.Duration(op.E), op.N)
+		case "callnil":
+			// Call(nil, d) schedules nothing; the future it returns can be cancelled like any
+			// other, with no effect on anybody
+			id := fmt.Sprintf("%s.%d", t.Name, i)
+			f := &fut{id: id, d: time.Duration(op.D), cancelInv: true}
+			w.futs[id] = f
+			w.order = append(w.order, id)
+			f.t0 = time.Now()
+			f.due = f.t0.Add(f.d)
+			f.created = true
+			e.Logf("call %s d=%v with a nil function", id, f.d)
+			f.f = timeout.Call(nil, f.d)
+			e.Probe("call_with_nil_function")
 		case "callat":
 			// several futures with exactly the same fire instant: the delay is computed in
 			// the very step in which Call reads the clock
@@ -365,7 +378,7 @@ func Generate(r *sim.Rng, prop, tier string, idx int) *sim.Case {
 		nt = 1 + r.Intn(6)
 	}
 	if c.Mode == "c12" {
-		delays := []time.Duration{time.Duration(1<<63 - 1), 250 * 365 * 24 * time.Hour, -time.Millisecond, 0, 0, time.Microsecond, time.Millisecond, time.Millisecond, 5 * time.Millisecond, 5 * time.Millisecond, 50 * time.Millisecond, time.Second, time.Minute, 10 * time.Minute}
+		delays := []time.Duration{time.Duration(1<<63 - 1), 250 * 365 * 24 * time.Hour, -time.Millisecond, -1, time.Duration(-1 << 63), 0, 0, time.Microsecond, time.Millisecond, time.Millisecond, 5 * time.Millisecond, 5 * time.Millisecond, 50 * time.Millisecond, time.Second, time.Minute, 10 * time.Minute}
 		for t := 0; t < nt; t++ {
 			task := sim.Task{Name: fmt.Sprintf("t%d", t)}
 			n := 2 + r.Intn(7)
@@ -382,19 +395,22 @@ func Generate(r *sim.Rng, prop, tier string, idx int) *sim.Case {
 					if r.Chance(1, 8) {
 						op.N = int64(1 + r.Intn(2))
 					}
+					if r.Chance(1, 25) {
+						op = sim.Op{K: "callnil", D: op.D}
+					}
 					task.Ops = append(task.Ops, op)
 				case 5, 6, 7:
 					// cancel some future created earlier by any task (by construction order)
 					var ids []string
 					for _, ot := range c.Tasks {
 						for j, oo := range ot.Ops {
-							if oo.K == "call" || oo.K == "callat" {
+							if oo.K == "call" || oo.K == "callat" || oo.K == "callnil" {
 								ids = append(ids, fmt.Sprintf("%s.%d", ot.Name, j))
 							}
 						}
 					}
 					for j, oo := range task.Ops {
-						if oo.K == "call" || oo.K == "callat" {
+						if oo.K == "call" || oo.K == "callat" || oo.K == "callnil" {
 							ids = append(ids, fmt.Sprintf("%s.%d", task.Name, j))
 						}
 					}
